@@ -389,7 +389,10 @@ def r12d(ctx):
     for p in returning(paths(repo, b)):
         r = p.retval
         mc = method_call(r)
-        ok = mc is not None and mc[1] == 'float' and mc[0][0] == 'cmp' and mc[0][1] in ('>', '>=')
+        ok = mc is not None and mc[1] in ('float', 'to', 'type') and (
+            (mc[0][0] == 'cmp' and mc[0][1] in ('>', '>=')) or
+            is_call(mc[0], 'torch.gt', 'torch.ge', 'torch.greater', 'torch.greater_equal') or
+            (method_call(mc[0]) is not None and method_call(mc[0])[1] in ('gt', 'ge')))
         ctx.ob('R12d', 'PITBinarizer.forward non-decreasing', ok,
                '(x > threshold) is a non-decreasing step of x' if ok else
                f'binariser computes {short(r)}', where(b))
